@@ -490,5 +490,136 @@ theorem numberToSource_other (x : F64) (h0 : ¬ (x.isInf = true ∧ x.neg = fals
     exact h1 ⟨hi, hn⟩
   simp [this, h3]
 
+/-! ### (7) do-block comments are emitted exactly once, in order -/
+
+/-- a piece of emitted text: a comment copied from the tree, or anything else -/
+inductive Chunk where
+  | comment : String → Chunk
+  | code : String → Chunk
+
+def Chunk.text : Chunk → String
+  | .comment c => c
+  | .code s => s
+
+def Chunk.comment? : Chunk → Option String
+  | .comment c => some c
+  | .code _ => none
+
+def joinChunks (l : List Chunk) : String := String.join (l.map Chunk.text)
+
+/-- leading comments: each on its own line -/
+def leadChunks : List String → List Chunk
+  | [] => []
+  | c :: cs => .code "\n  " :: .comment c :: leadChunks cs
+
+/-- trailing comment: on the line of its statement -/
+def trailChunks : Option String → List Chunk
+  | some t => [.code "  ", .comment t]
+  | none => []
+
+def stmtChunks (sc : Scope) : Item → List Chunk
+  | .mk lead e tr =>
+    leadChunks lead ++ [.code ("\n  " ++ protectStatementStart (exprSrc sc e))] ++ trailChunks tr
+
+def stmtsChunks (sc : Scope) : List Item → List Chunk
+  | [] => []
+  | i :: rest => stmtChunks sc i ++ stmtsChunks (scopeAfterStmt sc i) rest
+
+def retChunks (sc : Scope) : Item → List Chunk
+  | .mk lead e _ => leadChunks lead ++ [.code ("\n  return " ++ exprSrc sc e ++ "\n}")]
+
+def doChunks (sc : Scope) (stmts : List Item) (ret : Item) : List Chunk :=
+  .code "do {" :: (stmtsChunks sc stmts ++ retChunks (scopeAfterStmts sc stmts) ret)
+
+/-- the comments of the statements of a do-block, in source order: leading comments of a
+    statement, then its trailing comment; last the leading comments of the `return`
+    (the parser never gives the `return` item a trailing comment: `None` at the
+    `Rule::return_statement` arm of `pairs_to_expr_inner`) -/
+def stmtComments : Item → List String
+  | .mk lead _ tr => lead ++ tr.toList
+
+def doComments (stmts : List Item) (ret : Item) : List String :=
+  stmts.flatMap stmtComments ++ ret.leading
+
+theorem joinChunks_nil : joinChunks [] = "" := rfl
+
+theorem comment?_code (s : String) : Chunk.comment? (.code s) = none := rfl
+theorem comment?_comment (s : String) : Chunk.comment? (.comment s) = some s := rfl
+
+theorem filterMap_code (s : String) (l : List Chunk) :
+    (Chunk.code s :: l).filterMap Chunk.comment? = l.filterMap Chunk.comment? :=
+  List.filterMap_cons_none rfl
+theorem filterMap_comment (s : String) (l : List Chunk) :
+    (Chunk.comment s :: l).filterMap Chunk.comment? = s :: l.filterMap Chunk.comment? :=
+  List.filterMap_cons_some rfl
+
+theorem joinChunks_append (a b : List Chunk) : joinChunks (a ++ b) = joinChunks a ++ joinChunks b := by
+  apply String.toList_inj.mp
+  simp [joinChunks, String.toList_join]
+
+theorem joinChunks_cons (c : Chunk) (l : List Chunk) : joinChunks (c :: l) = c.text ++ joinChunks l := by
+  apply String.toList_inj.mp
+  simp [joinChunks, String.toList_join]
+
+theorem commentLines_chunks : ∀ cs : List String, commentLines cs = joinChunks (leadChunks cs)
+  | [] => rfl
+  | c :: cs => by
+    have ih := commentLines_chunks cs
+    apply String.toList_inj.mp
+    have ih' := congrArg String.toList ih
+    simp only [commentLines, joinChunks, String.toList_join] at ih' ⊢
+    simp [leadChunks, Chunk.text, ih']
+
+theorem stmtSrc_chunks (sc : Scope) (i : Item) : stmtSrc sc i = joinChunks (stmtChunks sc i) := by
+  obtain ⟨lead, e, tr⟩ := i
+  cases tr <;>
+  simp only [stmtSrc, stmtChunks, trailChunks, joinChunks_append, joinChunks_cons, joinChunks_nil,
+    Chunk.text, commentLines_chunks, String.append_empty, String.append_assoc]
+
+theorem doStmtsSrc_chunks : ∀ (stmts : List Item) (sc : Scope),
+    doStmtsSrc sc stmts = joinChunks (stmtsChunks sc stmts)
+  | [], _ => by simp only [doStmtsSrc, stmtsChunks, joinChunks_nil]
+  | i :: rest, sc => by
+    simp only [doStmtsSrc, stmtsChunks, joinChunks_append, stmtSrc_chunks,
+      doStmtsSrc_chunks rest (scopeAfterStmt sc i)]
+
+theorem retSrc_chunks (sc : Scope) (r : Item) : retSrc sc r = joinChunks (retChunks sc r) := by
+  obtain ⟨lead, e, tr⟩ := r
+  simp only [retSrc, retChunks, joinChunks_append, joinChunks_cons, joinChunks_nil, Chunk.text,
+    commentLines_chunks, String.append_empty, String.append_assoc]
+
+/-- the text of a do-block is the concatenation of its chunks -/
+theorem doBlock_chunks (sc : Scope) (stmts : List Item) (ret : Item) :
+    exprSrc sc (.doBlock stmts ret) = joinChunks (doChunks sc stmts ret) := by
+  simp only [exprSrc, doChunks, joinChunks_cons, joinChunks_append, Chunk.text,
+    doStmtsSrc_chunks, retSrc_chunks, String.append_assoc]
+
+theorem leadChunks_comments : ∀ cs : List String, (leadChunks cs).filterMap Chunk.comment? = cs
+  | [] => rfl
+  | c :: cs => by
+    simp only [leadChunks, filterMap_code, filterMap_comment, leadChunks_comments cs]
+
+theorem stmtChunks_comments (sc : Scope) (i : Item) :
+    (stmtChunks sc i).filterMap Chunk.comment? = stmtComments i := by
+  obtain ⟨lead, e, tr⟩ := i
+  cases tr <;>
+    simp [stmtChunks, stmtComments, trailChunks, List.filterMap_append, leadChunks_comments,
+      filterMap_code, filterMap_comment]
+
+theorem stmtsChunks_comments : ∀ (stmts : List Item) (sc : Scope),
+    (stmtsChunks sc stmts).filterMap Chunk.comment? = stmts.flatMap stmtComments
+  | [], _ => rfl
+  | i :: rest, sc => by
+    simp only [stmtsChunks, List.filterMap_append, stmtChunks_comments,
+      stmtsChunks_comments rest _, List.flatMap_cons]
+
+/-- … and the comment chunks are exactly the comments of the do-block, each once, in order -/
+theorem doChunks_comments (sc : Scope) (stmts : List Item) (ret : Item) :
+    (doChunks sc stmts ret).filterMap Chunk.comment? = doComments stmts ret := by
+  obtain ⟨lead, e, tr⟩ := ret
+  simp only [doChunks, doComments, retChunks, List.filterMap_append, stmtsChunks_comments,
+    leadChunks_comments, filterMap_code, Item.leading, List.filterMap_nil, List.append_nil]
+
+
 end PrintL
 end Blots
